@@ -195,7 +195,7 @@ func (s *session) runV2(name string, op J) J {
 		}
 		return r
 	case "query":
-		in := &dynamodb.QueryInput{TableName: table, KeyConditionExpression: pstr(op, "keycond"), FilterExpression: pstr(op, "filter"), ExpressionAttributeNames: names(op), ExpressionAttributeValues: itemToV2(obj(op, "values")), ExclusiveStartKey: itemToV2(obj(op, "esk"))}
+		in := &dynamodb.QueryInput{TableName: table, KeyConditionExpression: pstr(op, "keycond"), FilterExpression: pstr(op, "filter"), ExpressionAttributeNames: names(op), ExpressionAttributeValues: itemToV2(obj(op, "values")), ExclusiveStartKey: itemToV2(obj(op, "esk")), ProjectionExpression: pstr(op, "projection")}
 		if has(op, "index") {
 			in.IndexName = aws.String(str(op, "index"))
 		}
@@ -214,7 +214,7 @@ func (s *session) runV2(name string, op J) J {
 		}
 		return r
 	case "scan":
-		in := &dynamodb.ScanInput{TableName: table, FilterExpression: pstr(op, "filter"), ExpressionAttributeNames: names(op), ExpressionAttributeValues: itemToV2(obj(op, "values")), ExclusiveStartKey: itemToV2(obj(op, "esk"))}
+		in := &dynamodb.ScanInput{TableName: table, FilterExpression: pstr(op, "filter"), ExpressionAttributeNames: names(op), ExpressionAttributeValues: itemToV2(obj(op, "values")), ExclusiveStartKey: itemToV2(obj(op, "esk")), ProjectionExpression: pstr(op, "projection")}
 		if has(op, "index") {
 			in.IndexName = aws.String(str(op, "index"))
 		}
